@@ -145,6 +145,18 @@ fn angle_values<V: Fl>(rng: &mut Rng, n: usize) -> Vec<V> {
     for k in [0.0f64, -0.0, 1.0, -1.0, 90.0, 180.0, 360.0, 0.25, 0.5, std::f64::consts::FRAC_PI_2, std::f64::consts::PI, 1e6, 1e22, 100.0, 400.0, 5400.0, 324000.0, 1e-300, 0.7071067811865476, 2.0, 10.0, 1.0000000000000002] {
         out.push(V::from(k).unwrap());
     }
+    // the neighbours of the domain edges *in the storage type's own precision* (1 ± 1 ulp, 1 ± 2 ulp, … and
+    // their negatives): where acos / asin / atanh / acosh / ln_1p switch between a value, NaN and ±∞
+    for k in [1.0f64, 0.5, 2.0] {
+        let e: V = V::from(k).unwrap();
+        let b = e.to_bits64();
+        for d in [1u64, 2, 3] {
+            for v in [V::from_bits64(b + d), V::from_bits64(b - d)] {
+                out.push(v);
+                out.push(-v);
+            }
+        }
+    }
     out
 }
 
